@@ -26,7 +26,7 @@ CMD_TEXTS = ['SM,100,10,-10', 'SM,1,0,0', 'XM,50,3,4', 'EM,1,1', 'EM,0,0', 'SP,1
              'SC,4,16000', 'SC,10,65535', 'CS', 'SR,60000', 'SR,0,1', 'PO,B,3,1', 'PD,B,3,0', 'SL,7,2',
              'SL,255,31', 'T3,1,0,0,0,0,0,0,3', 'HM,1000', 'HM,1000,0,500', 'CU,50,0', 'CU,1,1',
              'LM,100,5,0,200,-5,0', 'O,1,2', 'O,0', 'C,1,2,3,4', 'N', 'S', 'S,2,3', 'ND', 'NI', 'ES',
-             'ST,abc', 'X', 'X,1', 'Z']
+             'ST,abc', 'X', 'X,1', 'Z', 'ST,Studio  East', 'ST,a \t b', 'ST,x  y   z']
 QRY_TEXTS = ['QL,3', 'QL,0', 'QL,31', 'QL', 'QS', 'QE', 'QC', 'QT', 'V', 'QG', 'PI,B,1', 'PI,B,0', 'QM', 'I',
              'MR', 'QP', 'QB', 'QU,4', 'QR', 'QN', 'A', 'Q', 'Q,1', 'I,1']
 WRONG_LINES = ['OK', 'QT,abc', 'QG,3E', 'SM', 'QL,17', 'QS,5,-5', 'EBBv13_and_above EB Firmware Version 3.0.2',
@@ -90,7 +90,7 @@ def _none(rng):
 
 
 def _a_nick(rng):
-    base = rng.choice(['Bob', 'axi 7', 'NextDraw_01', 'x', 'abcdefghijklmnop', 'A', 'Zed9'])
+    base = rng.choice(['Bob', 'axi 7', 'NextDraw_01', 'x', 'abcdefghijklmnop', 'A', 'Zed9', 'Studio  East', 'a \t b'])
     return [decorate(rng, base)], {}
 
 
@@ -314,6 +314,43 @@ def discover(scn):
     dry['faults'] = {}
     h = run.execute(dry)
     return {r['id']: r for r in h.ops}, h
+
+
+def discover_with(scn, faults):
+    """Dry run under a given (delay-only) fault plan: {op id: record}."""
+    dry = copy.copy(scn)
+    dry['faults'] = faults
+    h = run.execute(dry)
+    return {r['id']: r for r in h.ops}
+
+
+def pair_faults(scn, oid, delays=(1, 2, 25), exc_classes=('SerialException', 'OSError'), budget=25):
+    """Two cooperating faults inside one call: reply line(s) of request r preceded by d empty reads
+    (inside the conforming budget), and an exception or unplug at any I/O event of the call as it then
+    unfolds (i.e. also inside the retry loop).  Yields faults-dicts."""
+    recs, _ = discover(scn)
+    rec0 = recs[oid]
+    for r, req in enumerate(rec0['requests'], start=1):
+        nl = max(1, len(req['lines']))
+        for d in delays:
+            for j in range(nl):
+                ds = [0] * nl
+                ds[j] = d
+                plan = {'reply': [{'at': [oid, r], 'delay': ds}]}
+                rec = discover_with(scn, plan)[oid]
+                n = len(rec['io'])
+                base_n = len(rec0['io'])
+                # positions: everything for short delays; for long delays the first, middle and last retries
+                if n - base_n <= 4:
+                    ks = range(1, n + 1)
+                else:
+                    ks = sorted(set(list(range(1, base_n + 1)) + [base_n + 1, base_n + (n - base_n) // 2, n - 2, n - 1, n]))
+                for k in ks:
+                    if not 1 <= k <= n:
+                        continue
+                    for exc in exc_classes:
+                        yield {'reply': plan['reply'], 'io': [{'at': [oid, k], 'kind': 'raise', 'exc': exc}]}
+                    yield {'reply': plan['reply'], 'io': [{'at': [oid, k], 'kind': 'unplug'}]}
 
 
 def single_faults(rec, exc_classes=EXC_ALL, reply_kinds=None, names=None):
